@@ -31,11 +31,13 @@ type C18Case struct {
 	Strategy   string   `json:"strategy,omitempty"`
 	Env        bool     `json:"env,omitempty"`
 	DensePre   int      `json:"dense_prefill,omitempty"` // tensor pool pre-filled to this many entries (PoolSize-1 / PoolSize reach the pool-full branches)
+	Big        bool     `json:"big,omitempty"`           // shared and private tensors may have up to 2^17 elements (2^15 in the race build)
 }
 
 type C18Stats struct {
 	Runs, Ops, Yields, Switches, SwitchesInOp uint64
 	SeqSkips, SoloSharedMut, SoloUnterminated uint64
+	TapeFull, BigRuns                         uint64
 	Unreproducible                            uint64
 	Strategies                                map[string]uint64
 	Families                                  map[string]uint64
@@ -66,9 +68,10 @@ func buildShared(setup []Op) *World {
 	return w
 }
 
-func genSetup(r *RNG) []Op {
+func genSetup(r *RNG, big bool) []Op {
+	setBig(big)
 	w := newWorld(false)
-	g := &Gen{r: r, w: w, maxLive: 8, noFault: true}
+	g := &Gen{r: r, w: w, maxLive: 8, noFault: true, big: big}
 	var ops []Op
 	n := 1 + r.Intn(4)
 	for i := 0; i < n; i++ {
@@ -84,6 +87,10 @@ func genSetup(r *RNG) []Op {
 				dt = t0.Dtype().String()
 				sh = []int{t0.Shape()[r.Intn(2)]}
 			}
+		}
+		if big && i == 0 {
+			dt = []string{"float64", "float64", "float32", "int"}[r.Intn(4)]
+			sh = [][]int{{128, 128}, {64, 130}, {130, 64}}[r.Intn(3)]
 		}
 		op := g.opNew(dt, sh)
 		op.N &^= 4
@@ -167,7 +174,7 @@ func soloRun(cs *C18Case, c int, gen *RNG, length int, adversarial bool, st *C18
 	var prog []Op
 	var g *Gen
 	if gen != nil {
-		g = &Gen{r: gen, w: w, maxLive: 3 + w.nshared + gen.Intn(4), c18: true, noFault: gen.Intn(3) > 0}
+		g = &Gen{r: gen, w: w, maxLive: 3 + w.nshared + gen.Intn(4), c18: true, noFault: gen.Intn(3) > 0, big: cs.Big}
 	} else {
 		prog = cs.Programs[c]
 		length = len(prog)
@@ -228,6 +235,8 @@ func soloRun(cs *C18Case, c int, gen *RNG, length int, adversarial bool, st *C18
 
 var lastConc *concResult
 
+var c18SoloYields uint64
+
 type concResult struct {
 	outs      [][]Outcome
 	sharedMut string
@@ -267,12 +276,28 @@ func concRun(cs *C18Case, sr *RNG, replay bool, st *C18Stats) *concResult {
 		for c := 0; c < n; c++ {
 			expect += uint64(len(cs.Programs[c])) * 400
 		}
+		if c18SoloYields > expect {
+			expect = c18SoloYields // measured while the programs ran alone (large tensors: millions of statements)
+		}
 		cs.Strategy = S.SetupRandom(sr, n, expect)
 	}
 	if !raceEnabled {
 		init0 := sharedHashes(shared, true)
+		initMeta := sharedHashes(shared, false)
+		nsw := 0
 		S.onSwitch = func(from, to int) {
 			if res.sharedMut != "" {
+				return
+			}
+			nsw++
+			if cs.Big && nsw&1023 != 0 {
+				// large shared tensors: metadata at every switch, elements at every 1024th (and after the run)
+				now := sharedHashes(shared, false)
+				for i := range now {
+					if now[i] != initMeta[i] {
+						res.sharedMut = fmt.Sprintf("shared tensor in slot %d differs from its initial state (metadata) at a context switch (client %d -> %d, client %d in operation %d)", i, from, to, from, S.inOp[from])
+					}
+				}
 				return
 			}
 			now := sharedHashes(shared, true)
@@ -393,16 +418,22 @@ func genC18(seed uint64, tier string, st *C18Stats) *C18Case {
 	case 1, 2:
 		cs.DensePre = tensor.PoolSize - 1 - r.Intn(3)
 	}
+	if r.Intn(60) == 0 || os.Getenv("VERIF_FORCE_BIG") != "" {
+		cs.Big = true
+		cs.Clients = 2 + r.Intn(2)
+	}
 	sr := r.Fork(0x5e7)
-	cs.Setup = genSetup(&sr)
+	cs.Setup = genSetup(&sr, cs.Big)
 	cs.Programs = make([][]Op, cs.Clients)
 	return cs
 }
 
 // execC18 runs one case: solo oracle, concurrent run, comparison. With replay the recorded tape is followed.
 func execC18(cs *C18Case, tier string, replay bool, st *C18Stats) (*Violation, uint64) {
+	setBig(cs.Big)
 	r := RNG{s: cs.Seed ^ 0xc18c18}
 	solo := make([][]Outcome, cs.Clients)
+	S.soloYields = 0
 	for c := 0; c < cs.Clients; c++ {
 		var gen *RNG
 		length := 0
@@ -417,6 +448,9 @@ func execC18(cs *C18Case, tier string, replay bool, st *C18Stats) (*Violation, u
 				maxLen = maxLen/2 + 1
 			}
 			length = 3 + g.Intn(maxLen)
+			if cs.Big {
+				length = 2 + g.Intn(4)
+			}
 		}
 		prog, outs, mut := soloRun(cs, c, gen, length, false, st)
 		cs.Programs[c] = prog
@@ -442,10 +476,21 @@ func execC18(cs *C18Case, tier string, replay bool, st *C18Stats) (*Violation, u
 			return nil, 0
 		}
 	}
+	c18SoloYields = S.soloYields
 	sr := r.Fork(0x5c4ed)
 	res := concRun(cs, &sr, replay, st)
+	if S.tapeFull {
+		// more context switches than the tape holds: the run was cut short and says nothing
+		if st != nil {
+			st.TapeFull++
+		}
+		return nil, res.digest
+	}
 	lastConc = res
 	if st != nil {
+		if cs.Big {
+			st.BigRuns++
+		}
 		st.Runs++
 		st.Clients[cs.Clients]++
 		st.Strategies[cs.Strategy]++
@@ -762,7 +807,7 @@ func workC18(res *WorkerResult, start time.Time) {
 	res.Distinct = keysOf(st.Sigs)
 	res.Stats = map[string]interface{}{
 		"runs": st.Runs, "ops": st.Ops, "yields": st.Yields, "switches": st.Switches, "switches_in_op": st.SwitchesInOp,
-		"seq_skips": st.SeqSkips, "solo_shared_mutations": st.SoloSharedMut, "solo_unterminated": st.SoloUnterminated, "unreproducible_mismatches": st.Unreproducible, "strategies": st.Strategies,
+		"seq_skips": st.SeqSkips, "solo_shared_mutations": st.SoloSharedMut, "solo_unterminated": st.SoloUnterminated, "tape_overflow_skips": st.TapeFull, "runs_with_large_tensors": st.BigRuns, "unreproducible_mismatches": st.Unreproducible, "strategies": st.Strategies,
 		"families": st.Families, "op_names": st.OpNames, "pool": st.Pool, "distinct_schedule_signatures": len(st.Sigs),
 		"clients": st.Clients, "races": st.Races, "deadlocks": st.Deadlocks, "finalizers_fired": st.FinalizersFired,
 		"max_yields_in_a_run": st.MaxYields, "samples": st.Samples,
